@@ -7,7 +7,7 @@ from ..fdai import Interp, PyRaise, Unknown, explore, freeze, Imprecise, cmp_out
 from ..loader import AnchorError, is_self_attr, short, src, walk_no_nested
 from ..locks import LockAnalysis, regions
 from ..resolve import Resolver
-from ..rules import attr_writes, where
+from ..rules import accessor_field, attr_writes, dict_key_field, where
 
 FILES = ["operon_ai/state/telomere.py"]
 
@@ -59,6 +59,35 @@ def run(p, led, tier):
     led.rule("C09-R5", "every write of the remaining length is max(0,·), min(max_operations,·) or = max_operations", 3)
     led.rule("C09-R6", "renew is refused (no write, False) when disallowed or TERMINATED; a path on which an error or time limit test held ends SENESCENT", 4)
 
+    # private fields, identified through the public accessors that expose them
+    PH = accessor_field(p, tel, "get_phase")
+    LEN = dict_key_field(p, tel, "get_statistics", "telomere_length")
+    ERR = dict_key_field(p, tel, "get_statistics", "error_count")
+    OPS = dict_key_field(p, tel, "get_statistics", "operations_count")
+    REN = dict_key_field(p, tel, "get_statistics", "renewal_count")
+    REASON = dict_key_field(p, tel, "get_statistics", "senescence_reason")
+
+    def _clock_field(limit_attr):
+        """the timestamp F such that `now − self.F` is compared with self.<limit_attr> somewhere in the class"""
+        subs = {}
+        for n in ast.walk(tel.node):
+            if isinstance(n, ast.Assign) and len(n.targets) == 1 and isinstance(n.targets[0], ast.Name) and isinstance(n.value, ast.BinOp) and isinstance(n.value.op, ast.Sub) and is_self_attr(n.value.right):
+                subs[n.targets[0].id] = n.value.right.attr
+        for n in ast.walk(tel.node):
+            if isinstance(n, ast.Compare) and any(is_self_attr(x, limit_attr) for x in ast.walk(n)):
+                for x in ast.walk(n):
+                    if isinstance(x, ast.BinOp) and isinstance(x.op, ast.Sub) and is_self_attr(x.right):
+                        return x.right.attr
+                    if isinstance(x, ast.Name) and x.id in subs:
+                        return subs[x.id]
+        return None
+    STARTED, LASTACT = _clock_field("max_lifetime"), _clock_field("idle_timeout")
+    for nm_, v_ in (("get_phase()", PH), ("get_statistics()['telomere_length']", LEN), ("get_statistics()['error_count']", ERR), ("get_statistics()['senescence_reason']", REASON),
+                    ("the lifetime clock in check_timeouts", STARTED), ("the idle clock in check_timeouts", LASTACT)):
+        if v_ is None:
+            raise AnchorError(f"Telomere: the field behind {nm_} could not be identified")
+    led.extra["fields"] = dict(phase=PH, remaining=LEN, errors=ERR, operations=OPS, renewals=REN, reason=REASON, started=STARTED, last_activity=LASTACT)
+
     # ---------------- R1
     la = LockAnalysis(p, res, tel)
     if not la.locks:
@@ -92,13 +121,13 @@ def run(p, led, tier):
         if overrides:
             cfgargs.update(overrides)
         obj = it.instantiate(tel, [], cfgargs)
-        obj.fields["_phase"] = it.enum_member(phase, start)
+        obj.fields[PH] = it.enum_member(phase, start)
         # state invariant (verified inductively below, rule R2): a senescence reason is recorded only in
         # SENESCENT / APOPTOTIC / TERMINATED; there it may be anything
-        if start in ("SENESCENT", "APOPTOTIC", "TERMINATED") and "_senescence_reason" in obj.fields:
-            obj.fields["_senescence_reason"] = Unknown("_senescence_reason")
-        for f in ("_telomere_length", "_error_count", "_operations_count", "_started_at", "_last_activity", "_renewal_count"):
-            if f in obj.fields:
+        if start in ("SENESCENT", "APOPTOTIC", "TERMINATED") and REASON in obj.fields:
+            obj.fields[REASON] = Unknown(REASON)
+        for f in (LEN, ERR, OPS, STARTED, LASTACT, REN):
+            if f is not None and f in obj.fields:
                 obj.fields[f] = Unknown(f)
         it.events.clear()
         it.decisions.clear()
@@ -115,8 +144,8 @@ def run(p, led, tier):
         except PyRaise as e:
             r, raised = None, repr(e.exc)
         writes = [ev for ev in it.events if ev[0] == "write"]
-        reason = obj.fields.get("_senescence_reason")
-        return dict(reason_none=reason is None, ret=r, raised=raised, writes=writes, final=obj.fields["_phase"].name if hasattr(obj.fields["_phase"], "name") else repr(obj.fields["_phase"]),
+        reason = obj.fields.get(REASON)
+        return dict(reason_none=reason is None, ret=r, raised=raised, writes=writes, final=obj.fields[PH].name if hasattr(obj.fields[PH], "name") else repr(obj.fields[PH]),
                     changed=freeze(obj) != before, decisions=list(it.decisions))
 
     table = {}
@@ -131,7 +160,7 @@ def run(p, led, tier):
             edges = set()
             for _, r in paths:
                 for ev in r["writes"]:
-                    if ev[2] == "_phase":
+                    if ev[2] == PH:
                         a = ev[3].name if hasattr(ev[3], "name") else repr(ev[3])
                         b = ev[4].name if hasattr(ev[4], "name") else repr(ev[4])
                         edges.add((a, b))
@@ -174,25 +203,86 @@ def run(p, led, tier):
         else:
             led.ok("C09-R4", key, where(tick, tick.node), f"{len(paths)} path(s): result == (final phase is ACTIVE)")
 
-    # ---------------- R5 clamps
-    for m in tel.methods.values():
-        for k, n in attr_writes(m.node, "_telomere_length", "self"):
-            key = f"{m.qual} ▸ {short(n, 60)}"
-            v = n.value if isinstance(n, (ast.Assign, ast.AnnAssign)) else None
-            okshape = None
-            if v is not None:
-                if isinstance(v, ast.Call) and isinstance(v.func, ast.Name) and v.func.id == "max" and any(isinstance(a, ast.Constant) and a.value == 0 for a in v.args):
-                    okshape = "max(0, ·): never below 0 (and only decreases: the other operand subtracts a non-negative cost, A4)" if _only_decreases(v) else None
-                    if okshape is None:
-                        okshape = None
-                elif isinstance(v, ast.Call) and isinstance(v.func, ast.Name) and v.func.id == "min" and any("max_operations" in src(a) for a in v.args):
-                    okshape = "min(max_operations, ·): never above the maximum"
-                elif "max_operations" in src(v) and isinstance(v, (ast.Name, ast.Attribute)):
-                    okshape = "= max_operations"
-            if okshape:
-                led.ok("C09-R5", key, where(m, n), okshape)
-            else:
-                led.fail("C09-R5", key, where(m, n), "remaining length written without a clamp into [0, max_operations]")
+    # ---------------- R5 clamps (semantic: every value written to the remaining length is provably in [0, max_operations])
+    from ..fdai import Lin, LinInterp, entails
+    writers = [m for m in tel.methods.values() if m.name != "__init__" and list(attr_writes(m.node, LEN, "self"))]
+    init = tel.methods["__init__"]
+    for k, n in attr_writes(init.node, LEN, "self"):
+        v = n.value if isinstance(n, (ast.Assign, ast.AnnAssign)) else None
+        key = f"{init.qual} ▸ {short(n, 60)}"
+        if v is not None and isinstance(v, (ast.Name, ast.Attribute)) and "max_operations" in src(v):
+            led.ok("C09-R5", key, where(init, n), "= max_operations")
+        else:
+            led.fail("C09-R5", key, where(init, n), "initial remaining length is not the configured maximum")
+    for m in writers:
+        params = [a for a in m.params() if a != "self"]
+        probs, npaths, nwrites = [], 0, 0
+        for start in PHASES:
+            def go(o, _m=m, _start=start):
+                it = LinInterp(p, o)
+                mx, rem = Lin.sym("max_operations"), Lin.sym("remaining")
+                obj = it.instantiate(tel, [], {"max_operations": 0, "error_threshold": Unknown("error_threshold"), "allow_renewal": Unknown("allow_renewal"), "silent": True,
+                                               "max_lifetime_hours": Unknown("max_lifetime_hours"), "idle_timeout_minutes": Unknown("idle_timeout_minutes"),
+                                               "on_phase_change": None, "on_senescence": None})
+                obj.fields["max_operations"] = mx
+                obj.fields[LEN] = rem
+                obj.fields[PH] = it.enum_member(phase, _start)
+                if _start in ("SENESCENT", "APOPTOTIC", "TERMINATED") and REASON in obj.fields:
+                    obj.fields[REASON] = Unknown(REASON)
+                for f in (ERR, OPS, STARTED, LASTACT, REN):
+                    if f is not None and f in obj.fields:
+                        obj.fields[f] = Unknown(f)
+                it.assume(rem)
+                it.assume(mx.add(rem, -1))
+                args = []
+                for a in params:
+                    sym = Lin.sym(a)
+                    it.assume(sym)          # A4: amounts and costs are non-negative integers
+                    args.append(sym)
+                it.events.clear()
+                it.watch_fields = {("Telomere", LEN)}
+                try:
+                    it.call_fi(_m, [obj] + args, {})
+                except PyRaise:
+                    pass
+                out = []
+                for ev in it.events:
+                    if ev[0] == "write" and ev[2] == LEN:
+                        old, new_ = ev[3], ev[4]
+                        nl = Lin.of(new_) if not isinstance(new_, Lin) else new_
+                        ol = Lin.of(old) if not isinstance(old, Lin) else old
+                        if nl is None:
+                            out.append(("opaque", repr(new_)))
+                            continue
+                        lo = entails(it.facts, nl)
+                        hi = entails(it.facts, mx.add(nl, -1))
+                        dec = ol is not None and entails(it.facts, ol.add(nl, -1))
+                        out.append(("w", repr(nl), lo, hi, dec))
+                return out
+            try:
+                paths = explore(go, max_paths=400)
+            except Imprecise as e:
+                raise AnchorError(f"affine interpretation of {m.qual} from {start} is imprecise: {e}")
+            npaths += len(paths)
+            for _, ws in paths:
+                for w in ws:
+                    nwrites += 1
+                    if w[0] == "opaque":
+                        probs.append(f"from {start}: writes an opaque value {w[1]}")
+                    else:
+                        if not w[2]:
+                            probs.append(f"from {start}: writes {w[1]}, not provably ≥ 0")
+                        if not w[3]:
+                            probs.append(f"from {start}: writes {w[1]}, not provably ≤ max_operations")
+                        if m.name == "tick" and not w[4]:
+                            probs.append(f"from {start}: tick writes {w[1]}, which can exceed the previous remaining length")
+        key = f"{m.qual} ▸ writes of the remaining length"
+        if probs:
+            led.fail("C09-R5", key, where(m, m.node), "; ".join(sorted(set(probs))[:3]))
+        elif nwrites == 0:
+            led.fail("C09-R5", key, where(m, m.node), "the method's length writes were never reached by the interpretation")
+        else:
+            led.ok("C09-R5", key, where(m, m.node), f"{nwrites} write(s) over {npaths} path(s) from all 5 phases: 0 ≤ value ≤ max_operations" + (" and value ≤ previous" if m.name == "tick" else "") + " (affine entailment)")
 
     # ---------------- R6 refusals and forced senescence
     renew = p.find_method(tel, "renew")
@@ -213,8 +303,8 @@ def run(p, led, tier):
         led.fail("C09-R6", key, where(renew, renew.node), f"a terminated lifecycle is renewed on {len(bad)}/{len(paths)} path(s)")
     else:
         led.ok("C09-R6", key, where(renew, renew.node), f"{len(paths)} path(s): nothing written, False returned")
-    limits = [("record_error", ("_error_count", "error_threshold"), "error limit"), ("check_timeouts", ("_started_at", "max_lifetime_hours"), "lifetime limit"),
-              ("check_timeouts", ("_last_activity", "idle_timeout_minutes"), "idle limit")]
+    limits = [("record_error", (ERR, "error_threshold"), "error limit"), ("check_timeouts", (STARTED, "max_lifetime_hours"), "lifetime limit"),
+              ("check_timeouts", (LASTACT, "idle_timeout_minutes"), "idle limit")]
     for mname, (a_n, b_n), what in limits:
         needle = b_n
         paths = table[(mname, "ACTIVE")]
